@@ -49,6 +49,7 @@ const (
 	kindFor  = "for-binds-unmarked-elements"
 	kindDyn  = "dynblock-iterator-unmarked"
 	kindConv = "conversion-error-quotes-attribute-name"
+	kindCond = "conditional-mismatch-quotes-attribute-name"
 )
 
 var collParam = function.Parameter{Name: "coll", Type: cty.DynamicPseudoType, AllowNull: true, AllowUnknown: true, AllowDynamicType: true, AllowMarked: true}
@@ -149,6 +150,32 @@ func isConvQuote(detail string, cans []string) bool {
 		if findCanary(sub[2], cans) != "" {
 			found = true
 			return sub[1] + " <name>"
+		}
+		return m
+	})
+	return found && findCanary(rest, cans) == ""
+}
+
+// ---- (4) the conditional's own type-mismatch description --------------------------------
+//
+// hclsyntax describeConditionalTypeMismatch names the object attributes in which the two
+// result TYPES differ ("includes object attribute %q", "Type mismatch for object attribute
+// %q: ..."); an object built from a marked key has the marked content as an attribute name.
+// The kind is given only when the diagnostic is that one and EVERY canary occurrence sits
+// inside such a quoted attribute name.
+
+var condAttrName = regexp.MustCompile(`object attribute "((?:[^"\\]|\\.)*)"`)
+
+func isCondMismatchQuote(summary, detail string, cans []string) bool {
+	const head = "The true and false result expressions must have consistent types. "
+	if summary != "Inconsistent conditional result types" || !strings.HasPrefix(detail, head) {
+		return false
+	}
+	found := false
+	rest := condAttrName.ReplaceAllStringFunc(detail[len(head):], func(m string) string {
+		if sub := condAttrName.FindStringSubmatch(m); findCanary(sub[1], cans) != "" {
+			found = true
+			return "object attribute <name>"
 		}
 		return m
 	})
@@ -596,6 +623,10 @@ func classify(ci *caseInput, hits []hit, note func(string)) []hit {
 		h := &hits[i]
 		if h.kind == "canary-in-detail" && isConvQuote(h.where, cans) {
 			h.kind0, h.kind = h.kind, kindConv
+			continue
+		}
+		if h.kind == "canary-in-detail" && isCondMismatchQuote(h.summary, h.where, cans) {
+			h.kind0, h.kind = h.kind, kindCond
 			continue
 		}
 		if strings.HasPrefix(h.kind, "canary-") {
